@@ -79,15 +79,16 @@ Residuals(s, coef, shift, bps, allowMin) ==
     LET ord == Len(coef)
         native == ord = 0 \/ (bps <= 30 /\ SumAbs(coef) <= P2(30 - bps))
         R(i) == LET n == ord + i - 1
-                    pw == IF ord = 0 THEN <<TRUE, 0>>
-                          ELSE IF native THEN <<TRUE, PredNative(s, n, coef, ord, shift)>>
-                          ELSE PredWide(s, n, coef, ord, shift)
+                    isWide == ord # 0 /\ ~native
+                    pw == IF ord = 0 \/ isWide THEN <<TRUE, 0>> ELSE <<TRUE, PredNative(s, n, coef, ord, shift)>>
                     x == s[ord + i]
-                    \* the residual itself must be a 32-bit value other than -2^31
-                    ok == pw[1] /\ (IF x >= 0 /\ pw[2] < 0 THEN x <= 2147483647 + pw[2]
-                                    ELSE IF x < 0 /\ pw[2] > 0 THEN x >= (IF allowMin THEN (-2147483647) - 1 ELSE -2147483647) + pw[2]
-                                    ELSE allowMin \/ pw[2] # 0 \/ x # (-2147483647) - 1)
-                IN IF ok THEN <<TRUE, x - pw[2]>> ELSE <<FALSE, 0>>
+                    \* the prediction may leave the 32-bit range; the residual itself must be a 32-bit value other than -2^31
+                    wide == IF isWide THEN SubWide(x, PredWidePair(s, n, coef, ord, shift), shift) ELSE <<FALSE, 0>>
+                    ok == IF isWide THEN wide[1] /\ (allowMin \/ wide[2] # (-2147483647) - 1)
+                          ELSE (IF x >= 0 /\ pw[2] < 0 THEN x <= 2147483647 + pw[2]
+                                ELSE IF x < 0 /\ pw[2] > 0 THEN x >= (IF allowMin THEN (-2147483647) - 1 ELSE -2147483647) + pw[2]
+                                ELSE allowMin \/ pw[2] # 0 \/ x # (-2147483647) - 1)
+                IN IF ~ok THEN <<FALSE, 0>> ELSE IF isWide THEN <<TRUE, wide[2]>> ELSE <<TRUE, x - pw[2]>>
         all == [i \in 1..(Len(s) - ord) |-> R(i)]
     IN [ok |-> \A i \in 1..Len(all) : all[i][1], res |-> [i \in 1..Len(all) |-> all[i][2]]]
 
